@@ -523,11 +523,10 @@ Fixpoint push_raws (is : list instr) : M unit :=
   | i :: r => push_raw i ;; push_raws r
   end.
 Definition scope_end : M unit :=
-  do s <- get ;;
-  let ds := map_hd (fun d => (d - 1)%Z) (cs_depth s) in
-  let '(rl, is) := pop_locals (rev (hd [] (cs_locals s))) (hd 0%Z ds) in
-  put (set_scopes (map_hd (fun _ => rev rl) (cs_locals s)) (cs_upvalues s) ds s) ;;
-  push_raws is.
+  fun s =>
+    let ds := map_hd (fun d => (d - 1)%Z) (cs_depth s) in
+    let rlis := pop_locals (rev (hd [] (cs_locals s))) (hd 0%Z ds) in
+    push_raws (snd rlis) (set_scopes (map_hd (fun _ => rev (fst rlis)) (cs_locals s)) (cs_upvalues s) ds s).
 
 Definition compile_begin : M unit :=
   fun s => ROk tt (set_scopes ([] :: cs_locals s) ([] :: cs_upvalues s) (0%Z :: cs_depth s) s).
